@@ -286,7 +286,7 @@ def judge_grid(fitter, dmin, dmax, step):
     return None, g
 
 
-def judge_3d(info, src, names_pkg, logm3_pkg, logd, k, avlo, avhi, f32=False, want_mf=True):
+def judge_3d(info, src, names_pkg, logm3_pkg, logd, k, avlo, avhi, f32=False, want_mf=True, resolved_removed=False):
     """logm3_pkg: (n_models, n_dist, n_bands) reference log fluxes on the reference grid."""
     flags, fl, er = src
     prob, rows = alignment(info, names_pkg)
@@ -318,6 +318,8 @@ def judge_3d(info, src, names_pkg, logm3_pkg, logd, k, avlo, avhi, f32=False, wa
         sub = names_pkg[m]
         j = int(np.argmin(np.abs(logd - sc[m])))
         jbest[m] = j
+        if resolved_removed and ch[m] == np.inf:
+            continue          # model removed as resolved at every distance: only its place in the ranking is judged
         if abs(logd[j] - sc[m]) > 1e-12 * (1 + abs(sc[m])):
             probs.append(('scale-not-on-grid', '%s: scale %r is not log10 of a grid distance (nearest %r)' % (sub, sc[m], logd[j])))
             continue
@@ -333,7 +335,10 @@ def judge_3d(info, src, names_pkg, logm3_pkg, logd, k, avlo, avhi, f32=False, wa
             probs.append(('av', '%s: A_V %r, clipped least-squares optimum at the reported distance is %r' % (sub, av[m], ref['av'][m, j])))
         if not (lo[j] - ctol[j] <= ch[m] <= hi[j] + ctol[j]):
             probs.append(('chi2-at-distance', '%s: chi2 %r, reference at the reported distance in [%r, %r]' % (sub, ch[m], lo[j], hi[j])))
-        if not (np.min(lo - ctol) <= ch[m] <= np.min(hi + ctol)):
+        if resolved_removed:
+            if ch[m] < np.min(lo - ctol):
+                probs.append(('chi2-below-min', '%s: chi2 %r below the grid minimum %r' % (sub, ch[m], np.min(lo))))
+        elif not (np.min(lo - ctol) <= ch[m] <= np.min(hi + ctol)):
             probs.append(('chi2-not-min', '%s: chi2 %r at grid index %d, minimum over the grid is in [%r, %r] (index %d)'
                           % (sub, ch[m], j, np.min(lo), np.min(hi), int(np.argmin(hi)))))
         if mf is not None:
